@@ -3,6 +3,9 @@ encode and decode types.
 
 """
 
+import hashlib
+import pickle
+
 try:
     import diskcache
     has_diskcache = True
@@ -272,16 +275,25 @@ def _compile_files_cache(filenames,
     key = b''.join(key)
     cache = diskcache.Cache(cache_dir)
 
+    # The compiled specification is stored pickled together with a
+    # digest, so that a damaged cache entry is recompiled instead of
+    # being unpickled to something else.
     try:
-        return cache[key]
-    except KeyError:
-        compiled = compile_dict(parse_files(filenames, encoding),
-                                codec,
-                                any_defined_by_choices,
-                                numeric_enums)
-        cache[key] = compiled
+        digest, pickled = cache[key]
 
-        return compiled
+        if hashlib.sha256(pickled).digest() == digest:
+            return pickle.loads(pickled)
+    except (KeyError, TypeError, ValueError):
+        pass
+
+    compiled = compile_dict(parse_files(filenames, encoding),
+                            codec,
+                            any_defined_by_choices,
+                            numeric_enums)
+    pickled = pickle.dumps(compiled)
+    cache[key] = (hashlib.sha256(pickled).digest(), pickled)
+
+    return compiled
 
 
 def compile_dict(specification,
